@@ -1,27 +1,33 @@
 from props_common import BASE_TB
 
 PROP = {
-    "modules": ["YorkieModel.Props.C03"],
+    "modules": ["YorkieModel.Props.C03", "YorkieModel.Props.C03Text"],
     "engines": [
         # integrated engine: real client SDK + real in-process server (memory DB), traffic captured at the HTTP transport
         {"name": "srv", "args": ["orc=c03"], "quick": {"n": 320, "workers": 8}, "thorough": {"n": 8000, "workers": 14}},
         {"name": "fdoc", "args": ["mix=c03"],
          "quick": {"n": 9600, "workers": 8}, "thorough": {"n": 60000, "workers": 14}},
+        # Text: the op-fed text engine with garbage collection on (server-style min vector, GC-off twin world,
+        # one trace in five with a too-large vector); without the arg the engine is the C01/C07 engine unchanged
+        {"name": "text", "args": ["gc=1"], "quick": {"n": 1600, "workers": 8}, "thorough": {"n": 60000, "workers": 14}},
     ],
     "trusted_base": BASE_TB + [
         "Go pointers modelled as creation tickets, Go maps as association lists; the order in which Root.GarbageCollect walks its maps is fixed in the model (the result is order independent; the engine compares full structural dumps after every purge)",
         "the simulated server (harness/eng_fdoc.go) stores the request-time vector per attached replica and computes MinVersionVector with the real time package, as server/packs/pushpull.go + database/memory do; requests are sequential",
         "DocSize accounting is not modelled",
+        "Text (Model/TextGc.lean): the set of registered text NODES is taken to be the set of tombstones (true without undo/redo: Remove returns true once per node, pieces split off a tombstone go through pendingGCPairs, a rebuilt root registers Text.GCPairs()); attribute tombstones are purged through an explicit registration table keyed like gcNodePairMap (updatedAt:key, toggling - known finding C09-n2), updated by regStyle / regRebuild; the engine `text gc=1` compares full structural dumps (ids, removedAt, insPrev links, attribute registers incl. tombstoned keys) of clone and root after every GarbageCollect",
+        "text engine, gc=1: the simulated server stores the request-time vector per replica and answers with time.MinVersionVector over those rows (as server/packs does); requests are sequential; Undo is only issued when no response has been applied since the undone update (Undo after GC is C14/C15 territory)",
     ],
     "level_text": "Lean theorems over the faithful document model (Model/FDoc.lean), all for unbounded roots / histories: Root.GarbageCollect with any vector is invisible (Marshal, every visible member / element list) and keeps the heap well-formed; well-formedness is preserved by every operation and every history; whatever is purged was covered by the vector; the GC-on run equals the GC-off run (no failing sync, same content after every step) for every history satisfying the explicit decidable `SafeRun` (simulation proof); negation witnesses by kernel evaluation for the four ways the full statement fails on the tree. Tied to the code by twin (GC on / GC off) differential replay with full structural dumps, GarbageLen, ElementMapLen and recomputed min version vectors.",
-    "level_note": "Full statement is FALSE on the pinned tree (known findings c03-*); theorems are `_partial` + witnesses.",
+    "level_note": "Full statement is FALSE on the pinned tree (known findings c03-*, F-C03-text-reparent); theorems are `_partial` + witnesses. Text part (Props/C03Text.lean): a purge with any vector erases only tombstone cells, changes no observation, keeps the GC invariant (relinked insPrev = surviving predecessor piece) and is independent of the map walk order; positions whose left character survives resolve on the purged list whatever else of the insertion was purged (head piece included); purge commutes with a later enabled operation up to the character-level abstraction under the decidable, provably weakest side condition SafeSkip plus 'anchors kept' (implied by causal stability); lockstep lift (one replica, any stream of operations, purges with ANY vectors in between): same visible text, String() and Marshal() as the GC-off replica, no failing call; system-level corollary on top of C01Text; witnesses by kernel evaluation for the re-parenting divergence under a stable vector and for the three failure modes of a too-large vector; the sufficient purge rule of the fix candidate is proved (reparent_fix_sufficient).",
     "technique": "Lean 4 proof (invariant + simulation) + negation witnesses by kernel evaluation + twin differential replay",
     "partial": [
         "gc_equiv_partial: GC-on == GC-off only under `SafeRun`: array operations (add/move/arraySet) only on arrays nothing was purged from, no Set that loses against a purged occupant, every operation finds its targets; array edits after a purge in the same array are outside the theorem - that region contains all four known findings and is covered by correspondence + oracle only",
         "F.3 purge_after_delivery (protocol level) is exercised by the engine's schedules, not proved here",
+        "text: purge_safe_partial / gc_equals_nogc_lockstep_partial / gc_replicas_converge_partial hold under SafeSkip (violated exactly by the states of F-C03-text-reparent) and 'anchors kept'; that the server's min vector gives 'anchors kept' for every in-flight operation is the protocol argument F.3 (engine only); commutation of attribute-tombstone purging with later Style operations is tied by the engine, not proved; one Text operation per change, single Text element (as C01Text)",
     ],
     "not_modelled": [
-        "Text / Tree garbage collection (gcNodePairMap entries of RGATreeSplit / Tree / RHT nodes)",
+        "Tree garbage collection (gcNodePairMap entries of Tree nodes); Text GC is modelled in Model/TextGc.lean",
         "undo/redo (identity reuse), dedup counters",
         "truly parallel requests (minVV computed after the pull range was read): needs the yield hooks",
         "detach (row deletion) and client-side WithDisableGC mixes beyond the never-purging server fold",
